@@ -6,6 +6,7 @@ import VlsModel.Gen.FnKvvKeys
 import VlsModel.Gen.FnKvvPass
 import VlsModel.Gen.FnNodePrune
 import VlsModel.Gen.FnNodeForget
+import VlsModel.Gen.FnNodeSync
 import VlsModel.Gen.FnNodeStateRestore
 import VlsModel.Gen.FnKvvSuffix
 import VlsModel.Gen.FnNodeNewChannel
@@ -948,5 +949,100 @@ example :
       (fun st => (st.dbid_high_water_mark, st.velocity_control, st.fee_velocity_control, st.invoices.length)) = .ok (7, 5, 6, 1) := rfl
 
 end NodeStateRestore
+
+/-! ### `Node::maybe_sync_persister` translated (`Gen.FnNodeSync`, `fn_targets/NodeSync.b5.json`): the start-up sync of a composite persister -/
+section NodeSync
+open VlsModel.Gen.FnNodeSync
+
+/-- a fold with unit state that returns has run its body successfully on every element -/
+theorem sync_fold_all {α : Type} (P : α → Prop) (f : Unit → α → VlsModel.Rs.M Unit)
+    (hstep : ∀ a, f () a = .ok () → P a) :
+    ∀ l : List α, List.foldlM f () l = .ok () → ∀ a ∈ l, P a := by
+  intro l
+  induction l with
+  | nil => intro _ a ha; cases ha
+  | cons x xs ih =>
+    intro h a ha
+    simp only [List.foldlM_cons, bind, Except.bind] at h
+    cases hf : f () x with
+    | error e => rw [hf] at h; cases h
+    | ok u =>
+      rw [hf] at h
+      rcases List.mem_cons.mp ha with rfl | ha'
+      · exact hstep _ hf
+      · exact ih h a ha'
+
+/-- **C11_fn_maybe_sync_persister**: when the persister reports an initial restore (a composite whose main store was lost) and
+    `Node::maybe_sync_persister` returns `Ok`, then the node entry (`new_node`), the allowlist, the tracker and — for EVERY slot
+    of the channel map, in whatever order the map is walked — the stub (`new_channel`, an existing entry tolerated) or the ready
+    channel (`update_channel`) were written and acknowledged: nothing of the signer's state is left out of the re-sync.
+    Without an initial restore nothing is written (the result is `Ok` for every persister). -/
+theorem C11_fn_maybe_sync_persister {PublicKey Network ChainTracker ChannelId Persist : Type}
+    (init : Persist → Bool) (st : Node PublicKey Network ChainTracker ChannelId Persist → NodeState)
+    (newNode : Persist → PublicKey → NodeConfig Network → NodeState → Option Unit)
+    (wl : Node PublicKey Network ChainTracker ChannelId Persist → NodeState → List String)
+    (updAl : Persist → PublicKey → List String → Option Unit)
+    (trk : Node PublicKey Network ChainTracker ChannelId Persist → ChainTracker)
+    (updT : Persist → PublicKey → ChainTracker → Option Unit)
+    (chs : Node PublicKey Network ChainTracker ChannelId Persist → List (ChannelId × ChannelSlot))
+    (newCh : Persist → PublicKey → ChannelStub → Option Unit) (updCh : Persist → PublicKey → Channel → Option Unit)
+    (self : Node PublicKey Network ChainTracker ChannelId Persist) :
+    (init self.persister = false →
+      Node.maybe_sync_persister init st newNode wl updAl trk updT chs newCh updCh self = .ok ()) ∧
+    (init self.persister = true →
+      Node.maybe_sync_persister init st newNode wl updAl trk updT chs newCh updCh self = .ok () →
+      newNode self.persister self.node_id self.node_config (st self) = some () ∧
+      updAl self.persister self.node_id (wl self (st self)) = some () ∧
+      updT self.persister self.node_id (trk self) = some () ∧
+      ∀ e ∈ chs self, match e.2 with
+        | .Stub s => newCh self.persister self.node_id s = some ()
+        | .Ready c => updCh self.persister self.node_id c = some ()) := by
+  constructor
+  · intro hi
+    unfold Node.maybe_sync_persister
+    simp [hi, pure, Except.pure, bind, Except.bind]
+  · intro hi h
+    unfold Node.maybe_sync_persister at h
+    simp only [hi, Node.get_id, if_true, bind, Except.bind, pure, Except.pure] at h
+    cases h1 : newNode self.persister self.node_id self.node_config (st self) with
+    | none => simp [h1, VlsModel.Rs.okOr, VlsModel.Rs.fail] at h
+    | some u1 =>
+      cases h2 : updAl self.persister self.node_id (wl self (st self)) with
+      | none => simp [h1, h2, VlsModel.Rs.okOr, VlsModel.Rs.fail, pure, Except.pure] at h
+      | some u2 =>
+        cases h3 : updT self.persister self.node_id (trk self) with
+        | none => simp [h1, h2, h3, VlsModel.Rs.okOr, VlsModel.Rs.fail, pure, Except.pure] at h
+        | some u3 =>
+          refine ⟨rfl, rfl, rfl, ?_⟩
+          simp only [h1, h2, h3, VlsModel.Rs.okOr, pure, Except.pure] at h
+          split at h
+          · cases h
+          · rename_i u hfold
+            exact sync_fold_all (fun e : ChannelId × ChannelSlot => match e.2 with
+                | .Stub s => newCh self.persister self.node_id s = some ()
+                | .Ready c => updCh self.persister self.node_id c = some ()) _ (by
+              intro e he
+              obtain ⟨k, slot⟩ := e
+              cases slot with
+              | Stub s =>
+                cases hn : newCh self.persister self.node_id s with
+                | none => simp [hn, VlsModel.Rs.okOr, VlsModel.Rs.fail, bind, Except.bind] at he
+                | some u => exact hn
+              | Ready c =>
+                cases hn : updCh self.persister self.node_id c with
+                | none => simp [hn, VlsModel.Rs.okOr, VlsModel.Rs.fail, bind, Except.bind] at he
+                | some u => exact hn) _ hfold
+
+/-- non-vacuity: a stub and a ready channel in the map; every write acknowledged: `Ok`; the ready channel's write refused: an error -/
+example :
+    let node : Node Nat Nat Nat Nat Nat := { node_config := ⟨0⟩, channels := [(1, .Stub ⟨⟩), (2, .Ready ⟨⟩)], persister := 0, tracker := 0, state := ⟨⟩, node_id := 9 }
+    Node.maybe_sync_persister (fun _ => true) (fun n => n.state) (fun _ _ _ _ => some ()) (fun _ _ => []) (fun _ _ _ => some ())
+      (fun n => n.tracker) (fun _ _ _ => some ()) (fun n => n.channels) (fun _ _ _ => some ()) (fun _ _ _ => some ()) node = .ok () ∧
+    Node.maybe_sync_persister (fun _ => true) (fun n => n.state) (fun _ _ _ _ => some ()) (fun _ _ => []) (fun _ _ _ => some ())
+      (fun n => n.tracker) (fun _ _ _ => some ()) (fun n => n.channels) (fun _ _ _ => some ()) (fun _ _ _ => none) node
+      = VlsModel.Rs.fail "Status::internal" := by
+  intro node; exact ⟨rfl, rfl⟩
+
+end NodeSync
 
 end VlsModel.Props.C11Fn
